@@ -111,7 +111,12 @@ func ParseTime(v string) (Time, error) {
 	if err != nil {
 		return Time{}, err
 	}
+	t = t.Round(DatePrecision)
+	// rounding can carry past the last year RFC 3339 can express: such a date could be written but never read back
+	if t.Year() > 9999 {
+		return Time{}, errors.New("date out of range")
+	}
 	return Time{
-		Time: t.Round(DatePrecision),
+		Time: t,
 	}, nil
 }
